@@ -182,6 +182,17 @@ func init() {
 				y := cloneTree(x).(T)
 				y["f"].(T)["ID"] = T{"s": strings.Replace(id["s"].(string), "example.com", "other.example.org", 1)}
 				c09Emit(c, c09Case{A: x, B: y, Want: "false", Why: "identity/different host"})
+				// ids of equal length that differ in one byte that is not a letter (the pairs a careless case fold
+				// would identify: @ `, [ {, ] }, ^ ~), in the path and in the query
+				if i%4 == 0 {
+					for _, pr := range [][2]string{{"/@alice", "/`alice"}, {"/objects/[1]", "/objects/{1}"}, {"?q=a^b", "?q=a~b"}, {"/x@y", "/x`y"}} {
+						a, b := cloneTree(x).(T), cloneTree(x).(T)
+						a["f"].(T)["ID"] = T{"s": id["s"].(string) + pr[0]}
+						b["f"].(T)["ID"] = T{"s": id["s"].(string) + pr[1]}
+						c09Emit(c, c09Case{A: a, B: b, Want: "false", Why: "identity/different punctuation"})
+						c09Emit(c, c09Case{A: b, B: a, Want: "false", Why: "identity/different punctuation"})
+					}
+				}
 				if c.R.Chance(30) {
 					c09Emit(c, c09Case{A: T{"iri": id["s"]}, B: x, Why: "mixed/iri-vs-object"})
 					c09Emit(c, c09Case{A: x, B: T{"iri": id["s"]}, Why: "mixed/object-vs-iri"})
@@ -212,6 +223,13 @@ func init() {
 			other := c09Other(cfg, c.R, goType, field)
 			if other == nil {
 				continue
+			}
+			if cur, ok := f[field].(T); ok && fieldKind(goType, field) == "time" && c.R.Bool() {
+				// an instant changed by less than a second, inside the same second
+				if t := asList(cur["time"]); len(t) == 3 {
+					ns := (int64(num(t[1])) + 1 + int64(c.R.Intn(999999998))) % 1000000000
+					other = T{"time": []interface{}{t[0], ns, t[2]}}
+				}
 			}
 			if cur, ok := f[field]; ok && treeEqual(cur, other) {
 				continue // the "different" value happens to be the current one
